@@ -51,7 +51,12 @@ func (e *executionResult[R]) Done() <-chan any {
 }
 
 func (e *executionResult[R]) IsDone() bool {
-	return e.done.Load()
+	select {
+	case <-e.doneChan:
+		return true
+	default:
+		return false
+	}
 }
 
 func (e *executionResult[R]) Get() (R, error) {
